@@ -3,12 +3,6 @@ From QV Require Import Json.JsonCheck.
 Open Scope string_scope.
 Open Scope Z_scope.
 
-(* ---------------------------------------------------------------- round trip functions *)
-Definition result_roundtrip (fl : flags) (v : pyval) : result pyval :=
-  do t <- result_encode fl v; result_decode fl t.
-Definition evqe_roundtrip (v : pyval) : result pyval := do t <- evqe_encode v; evqe_decode t.
-Definition layer_roundtrip (v : pyval) : result pyval := do t <- layer_encode v; layer_decode t.
-
 (* ---------------------------------------------------------------- witnesses *)
 Definition wL : layer := mkLayer 2 [GCRot 0 1; GCtrl 1 0].
 Definition wI : ind := mkInd 2 [wL] [NInt 0; NFloat 1 (-1); NFloat 1 0].
